@@ -34,6 +34,24 @@ for dp, dns, fns in os.walk(os.path.join(root, "nrel", "hive")):
 json.dump(sorted(out), open(os.path.join(os.path.dirname(os.path.dirname(os.path.abspath(__file__))), "hivecheck", "baseline_symbols.json"), "w"))
 print(len(out), "symbols")
 
+# ---- local variable binding sites of every function (hivecheck/localsback.py, pass LB): hivecheck/baseline_locals.json
+from hivecheck import localsback
+loc = {}
+for dp, dns, fns in os.walk(os.path.join(root, "nrel", "hive")):
+    dns.sort()
+    for fn in sorted(fns):
+        if fn.endswith(".py"):
+            rel = os.path.relpath(os.path.join(dp, fn), root)
+            if "/resources/" in rel:
+                continue
+            tree = ast.parse(open(os.path.join(dp, fn), encoding="utf-8").read())
+            for qn, d, cls, outer in qualnames(tree):
+                b = localsback.bindings(d)
+                if b:
+                    loc.setdefault(rel, {})[qn] = b
+json.dump(loc, open(os.path.join(os.path.dirname(os.path.dirname(os.path.abspath(__file__))), "hivecheck", "baseline_locals.json"), "w"), sort_keys=True)
+print(sum(len(v) for v in loc.values()), "functions with local bindings")
+
 # ---- argument style of every (callee name, parameter) in the pinned tree: hivecheck/baseline_calls.json (canon.py, pass K)
 from hivecheck import canon
 sigs = canon.Sigs()
